@@ -246,13 +246,13 @@ func c03eInterp(c c03eCase) (v kit.Verdict) {
 				return v.Failf("%s: expected 405, got %d ran=%v", what, rec.Code, ran)
 			}
 			got := map[string]bool{}
-			for _, m := range strings.Split(rec.Header().Get("Allow"), ",") {
+			for _, m := range strings.Split(rec.Result().Header.Get("Allow"), ",") {
 				if m = strings.TrimSpace(m); m != "" {
 					got[m] = true
 				}
 			}
 			if fmt.Sprint(c03eKeys(got)) != fmt.Sprint(c03eKeys(allowed)) {
-				return v.Failf("%s: Allow %q, reference %v", what, rec.Header().Get("Allow"), c03eKeys(allowed))
+				return v.Failf("%s: Allow %q, reference %v", what, rec.Result().Header.Get("Allow"), c03eKeys(allowed))
 			}
 			continue
 		}
